@@ -263,11 +263,36 @@ class BList:
             elif a.concrete and a.t == 0:
                 t = Num(0)
             else:
-                raise Undecided("slice of a row-structured list that does not start at a row boundary")
+                return self._flat_slice(a, b)
             run.oblige("row-slice-is-one-complete-row", (b == BList.off(t + 1, self.ncols)) & (t >= 0) & (t < self.rows), kind="call-pre",
                        cls="input", meta={"list": self.name})
             return SList(self.ncols, lambda i, t=t: self.elem2(t, i), name="row")
         raise Undecided("indexing a row-structured list")
+
+    def _flat_slice(self, a, b):
+        """A slice that is not (syntactically) a row: the general case by flat positions.  Position p of the complete
+        list is entry (p div ncols, p mod ncols); quotient and remainder are the values of two ghost functions whose
+        defining (nonlinear) relation p = r * ncols + c, 0 <= c < ncols is given as an instance at every position
+        asked for.  Python's clamping of slice bounds is kept.  Only for lists without a partial last row."""
+        import z3
+        run = engine()
+        if not (self.partial.concrete and self.partial.t == 0):
+            raise Undecided("general slice of a row-structured list with a partial last row")
+        rows, ncols = self.rows, self.ncols
+        total = rows * ncols
+        lo = sym.ite(a < 0, sym.smax(a + total, 0), sym.smin(a, total))
+        hi = sym.ite(b < 0, sym.smax(b + total, 0), sym.smin(b, total))
+        ln = sym.smax(hi - lo, 0)
+        I = z3.IntSort()
+        frow, fcol = z3.Function("flat_row", I, I, I), z3.Function("flat_col", I, I, I)
+
+        def elem(j, lo=lo):
+            p = lo + num(j)
+            r, c = Num(frow(p.z(), ncols.z())), Num(fcol(p.z(), ncols.z()))
+            run.assume(((ncols > 0) & (p >= 0) & (p < total)).implies(
+                (p == r * ncols + c) & (c >= 0) & (c < ncols) & (r >= 0) & (r < rows)))
+            return self.elem2(r, c)
+        return SList(ln, elem, name=(self.name or "") + "[flat:]")
 
     def havoc(self, base):
         raise Undecided("havoc of a row-structured list")
